@@ -67,6 +67,7 @@ def run_cadence(case: dict) -> Outcome:
             out.v("first-run-window", f"first run scheduled at {s_cur}, created {t0}, period {p}")
         if s_cur is None:
             return out
+        s_first = s_cur
         varying = set()
         for i, it in enumerate(case["iters"]):
             varying.add((it["lat_us"], it["dur_us"]))
@@ -108,6 +109,10 @@ def run_cadence(case: dict) -> Outcome:
             if s_next < s_iter + p:
                 out.v("cadence", f"{tag}: successor scheduled at {s_next}, less than one period after the run's own slot",
                       first=(i == 0 and du is not None))
+            if (s_next - s_first) % p != timedelta(0):
+                # "on a steady cadence": the slots form one grid; a retry in between (or a late run) shifts nothing
+                out.v("cadence-grid", f"{tag}: successor scheduled at {s_next}, which is not a whole number of periods after the first "
+                      f"slot {s_first}", after_retry=bool(it["fails"]))
             if new.delay.defer_by != p or new.ttl != params.ttl or new.execution_timeout != params.execution_timeout:
                 out.v("settings-changed", f"{tag}: successor changed period/ttl/timeout: {new}")
             params, s_cur = new, s_next
